@@ -39,10 +39,13 @@ SPEC = dict(
             # each case = 6 pools side by side whose workers still need 5.25-8.8 s when the end call is made
             # (beyond shutdown()'s 5 s and 5 s + 1 s polls and the destructor's 5 s drain); ~9 s wall, no CPU
             pool_slow=P(1, 6, 4, 8, extra=_NOSHRINK, q_secs=60, t_secs=600),
+            # 6 small pools per case: last submission placed at the idle-timeout exit of all workers (4x), fork-join parent (2x)
+            pool_edge=P(40, 600, 4, 8, extra=_NOSHRINK, q_secs=60, t_secs=600),
         ), flags=["-DC09_INTERPOSE"], parallel=24),
         pbt("c09_tsan", "harness/c09_pool.cpp", dict(
             pool=P(120, 2000, 16, 16, extra=_NOSHRINK, q_secs=45, t_secs=600),
             pool_slow=P(1, 4, 2, 4, extra=_NOSHRINK, q_secs=60, t_secs=600),
+            pool_edge=P(20, 300, 2, 4, extra=_NOSHRINK, q_secs=60, t_secs=600),
         ), san="tsan", parallel=24, tsan_scope=["thread_pool.hpp"]),
     ],
 )
